@@ -101,6 +101,10 @@ func makePayloader(name string) rtp.Payloader {
 		return &codecs.H264Payloader{DisableStapA: true}
 	case "h265":
 		return &codecs.H265Payloader{}
+	case "h265donl":
+		return &codecs.H265Payloader{AddDONL: true}
+	case "vp9nonflex":
+		return &codecs.VP9Payloader{InitialPictureIDFn: func() uint16 { return 32760 }}
 	case "av1":
 		return &codecs.AV1Payloader{}
 	default:
@@ -214,6 +218,9 @@ func checkC06(r *run, c *PktzCase) (CaseInfo, error) {
 			if c.Payloader == "av1" {
 				payload[0] = 0x30 // OBU_FRAME, no extension, no size field: the whole buffer is one OBU
 			}
+			if c.Payloader == "vp9nonflex" {
+				payload[0] = 0x84 // frame_marker 2, profile 0, not show_existing, non-key frame: a parsable header
+			}
 			if st, ok := inner.(*stub); ok {
 				st.frags = op.StubFrags
 			}
@@ -302,7 +309,7 @@ func checkC06(r *run, c *PktzCase) (CaseInfo, error) {
 	return ci, nil
 }
 
-var c06Payloaders = []string{"g711", "g722", "opus", "vp8", "vp8pid", "vp9flex", "h264", "h264nostap", "h265", "av1", "stub", "stub"}
+var c06Payloaders = []string{"g711", "g722", "opus", "vp8", "vp8pid", "vp9flex", "vp9nonflex", "h264", "h264nostap", "h265", "h265donl", "av1", "stub", "stub"}
 
 func genPktzCase(t *rapid.T) *PktzCase {
 	c := &PktzCase{
@@ -355,12 +362,12 @@ func genPktzCase(t *rapid.T) *PktzCase {
 	return c
 }
 
-const ruleC06 = "rapid draws a packetizer configuration (MTU 64-65535 biased to 64,65,100,267,1200,1500; PT; SSRC; fixed sequencer with start biased to 65530-65535/0 or random sequencer; abs-send-time off or id 1-14 with an injected clock; payloader in {G711,G722,Opus,VP8+-pid,VP9 flexible,H264+-STAP-A,H265,AV1, scripted stub}) and 1-10 operations Packetize(non-empty payload, samples)/SkipSamples/GeneratePadding(0-5). Oracle: spy on the payloader (fragments unchanged and in order), sequence/timestamp model (learned first values), fixed fields, marker, abs-send-time = exact 6.18 value of the injected instant, MarshalSize<=MTU, marshal/parse equality, padding packets valid padding-only RTP. Non-trivial = >=2 productive Packetize calls, one with >=2 packets, with a Skip/Padding before one of them; distinct = FNV-64 of the JSON case"
+const ruleC06 = "rapid draws a packetizer configuration (MTU 64-65535 biased to 64,65,100,267,1200,1500; PT; SSRC; fixed sequencer with start biased to 65530-65535/0 or random sequencer; abs-send-time off or id 1-14 with an injected clock; payloader in {G711,G722,Opus,VP8+-pid,VP9 flexible/non-flexible,H264+-STAP-A,H265+-DONL,AV1, scripted stub}) and 1-10 operations Packetize(non-empty payload, samples)/SkipSamples/GeneratePadding(0-5). Oracle: spy on the payloader (fragments unchanged and in order), sequence/timestamp model (learned first values), fixed fields, marker, abs-send-time = exact 6.18 value of the injected instant, MarshalSize<=MTU, marshal/parse equality, padding packets valid padding-only RTP. Non-trivial = >=2 productive Packetize calls, one with >=2 packets, with a Skip/Padding before one of them; distinct = FNV-64 of the JSON case"
 
 func TestC06(t *testing.T) {
 	r := begin(t, "C06", "exploration", ruleC06)
 	defer r.finish()
-	subC06.rapidRun(r, n(6000, 100000), genPktzCase)
+	subC06.rapidRun(r, n(6000, 300000), genPktzCase)
 }
 
 var _ = fmt.Sprintf
